@@ -42,6 +42,9 @@ func init() {
 		Control{"sweep result discarded", "gossip/basestream/basestreamleecher/basepeerleecher/session.go", `d\.processingChunks = d\.sweepProcessedChunks\(\)`, "d.sweepProcessedChunks()", "leave the processing list"})
 	Controls["C23"] = append(Controls["C23"],
 		Control{"snapshot shares the live overlay tree", "kvdb/flushable/flushable.go", `modifiedCopy := rbt\.NewWithStringComparator\(\)`, "modifiedCopy := w.modified", "C23.flushable.snapshot.own"})
+	// round 8: a named condition is read through its definition (core/namedcond.go) — and a wrong one is still caught
+	Controls["C30"] = append(Controls["C30"],
+		Control{"admission test named and reduced to the count bound", "utils/datasemaphore/semaphore.go", `if tmp\.Num > s\.maxProcessing\.Num \|\| tmp\.Size > s\.maxProcessing\.Size \{`, "over := tmp.Num > s.maxProcessing.Num\n\tif over {", "commit guarded by Metric.Size<=max"})
 	Controls["C33"] = append(Controls["C33"],
 		Control{"over-weight Add keeps the stale entry", "utils/simplewlru/simplewlru.go", `(func \(c \*Cache\) Add\(key, value interface\{\}, weight uint\) \(evicted int\) \{\n)`, "${1}\tif weight > c.maxWeight {\n\t\treturn 0\n\t}\n", "C33.cache"})
 }
